@@ -8,6 +8,7 @@ import (
 	"os"
 
 	"github.com/cloudwego/thriftgo/internal/verifsim/simrt"
+	"github.com/cloudwego/thriftgo/sdk"
 )
 
 func writeJSON(path string, v interface{}) {
@@ -50,7 +51,34 @@ func runCmdWorld(w *simrt.World, orig func()) {
 		writeJSON(out, w.Res)
 		os.Exit(0)
 	}
-	res := w.Run(orig)
+	// a session world: earlier invocations in the same process (as an SDK user would make them),
+	// then the invocation under observation
+	var sess struct {
+		Prelude [][]string `json:"prelude"`
+	}
+	if len(w.Spec.Driver) > 0 {
+		_ = json.Unmarshal(w.Spec.Driver, &sess)
+	}
+	res := w.Run(func() {
+		for i, args := range sess.Prelude {
+			func() {
+				defer func() {
+					if r := recover(); r != nil {
+						if fmt.Sprintf("%T", r) == "simrt.abortPanic" {
+							panic(r)
+						}
+						simrt.Log("prelude.panic", fmt.Sprint(i))
+					}
+				}()
+				err := sdk.InvokeThriftgo(nil, args...)
+				simrt.Log("prelude.done", fmt.Sprintf("%d err=%v", i, err != nil))
+			}()
+		}
+		if len(sess.Prelude) > 0 {
+			simrt.Boundary("main")
+		}
+		orig()
+	})
 	if res.Panic != "" {
 		fmt.Fprintln(os.Stderr, res.Panic)
 	}
